@@ -142,11 +142,85 @@ func thoroughExtras(pc propertyCheck, w *World, rep *Report, repo, verif string)
 			fmt.Fprintf(os.Stderr, "CHECKER-WEAKNESS variant %s/%s: %s\n", pc.ID, vr.Name, vr.Outcome)
 		}
 	}
+	// --- behaviour-preserving refactorings: the check has to stay silent on each
+	bfiles, _ := filepath.Glob(filepath.Join(verif, "benign", "*.diff"))
+	sort.Strings(bfiles)
+	bres := make([]variantResult, len(bfiles))
+	for i, f := range bfiles {
+		wg.Add(1)
+		go func(i int, f string) {
+			defer wg.Done()
+			vsem <- struct{}{}
+			defer func() { <-vsem }()
+			bres[i] = runBenign(pc.ID, repo, f, base)
+		}(i, f)
+	}
+	wg.Wait()
+	silent, alarms, bskipped := 0, 0, 0
+	var notSilent []variantResult
+	for _, br := range bres {
+		switch {
+		case br.Outcome == "silent":
+			silent++
+		case strings.HasPrefix(br.Outcome, "skipped"):
+			bskipped++
+			notSilent = append(notSilent, br)
+		default:
+			alarms++
+			notSilent = append(notSilent, br)
+			fmt.Fprintf(os.Stderr, "CHECKER-WEAKNESS benign refactoring %s under %s: %s %v\n", br.Name, pc.ID, br.Outcome, br.Reported)
+		}
+	}
+	rep.Extra["benign_refactorings"] = map[string]any{
+		"explanation": "behaviour-preserving refactorings of the current tree written by independent agents (benign/*.diff); each is applied to a scratch copy and analysed in a separate process; the check must report nothing new and keep its verdict",
+		"total":       len(bfiles), "silent": silent, "false_alarm_or_no_verdict": alarms, "skipped_patch_does_not_apply": bskipped,
+		"not_silent": notSilent,
+	}
 	rep.Extra["seeded_variants"] = map[string]any{
 		"explanation": "single-edit patches of the current tree that break a rule instance while still type-checking; each is applied to a scratch copy and analysed in a separate process; 'detected' means a new failing obligation of the expected rule was reported",
 		"total":       len(files), "detected": detected, "missed_or_no_verdict": missed, "skipped_patch_does_not_apply": skipped,
 		"results": results,
 	}
+}
+
+// runBenign applies a behaviour-preserving refactoring and expects the check to stay silent (and to keep its verdict).
+func runBenign(prop, repo, patchFile string, base map[string]bool) variantResult {
+	vr := variantResult{Name: strings.TrimSuffix(filepath.Base(patchFile), ".diff"), Expect: "silence"}
+	tmp, err := os.MkdirTemp("", "foxbenign-")
+	if err != nil {
+		vr.Outcome = "skipped (" + err.Error() + ")"
+		return vr
+	}
+	defer os.RemoveAll(tmp)
+	if out, err := exec.Command("rsync", "-a", "--exclude", ".git", repo+"/", tmp+"/").CombinedOutput(); err != nil {
+		vr.Outcome = "skipped (copy failed: " + strings.TrimSpace(string(out)) + ")"
+		return vr
+	}
+	p := exec.Command("patch", "-p1", "-s", "-F2", "--no-backup-if-mismatch", "-i", patchFile)
+	p.Dir = tmp
+	if out, err := p.CombinedOutput(); err != nil {
+		vr.Outcome = "skipped (patch does not apply to the current tree: " + firstLine(string(out)) + ")"
+		return vr
+	}
+	s, msg, err := runInner(prop, tmp, "", "")
+	if err != nil {
+		vr.Outcome = "no-verdict (" + err.Error() + ": " + firstLine(msg) + ")"
+		return vr
+	}
+	for _, f := range s.Failed {
+		if !base[f.Key] {
+			vr.Reported = append(vr.Reported, f.Key+" @ "+f.Pos)
+		}
+	}
+	switch {
+	case len(vr.Reported) > 0:
+		vr.Outcome = "FALSE-ALARM"
+	case s.Status == 2:
+		vr.Outcome = "no-verdict (" + firstLine(msg) + ")"
+	default:
+		vr.Outcome = "silent"
+	}
+	return vr
 }
 
 func runVariant(prop, repo, patchFile string, base map[string]bool) variantResult {
